@@ -7,7 +7,8 @@ CLAIMED = {
     "C01": ("All products (multiply, *, hadamard, product()) of every measure kind with every factor kind, both update_full modes, "
             "cached and uncached covariance, all four batch layouts: the real methods are executed symbolically and the real "
             "evaluate_ln of the result is proved equal to lnf(u)_i + lnf(f)_j on the row-major pair axis (i,j); operands' attributes "
-            "are proved unchanged (frame).", BASE_NOTE, "DESIGN §6-C01"),
+            "are proved unchanged (frame). Also: documented constructor defaults (omitted nu / ln_beta / g), evaluate / __call__, the "
+            "element_wise evaluation path and its refusal.", BASE_NOTE, "DESIGN §6-C01"),
     "C02": ("Mass queries are proved equal to the Gaussian integral formula lnmass (axiom G1) in every cache state and query order; "
             "every constructor argument combination (full and diagonal) is proved to establish wf_pdf and to evaluate to N(x; mu, Sigma); "
             "get_density / normalize are proved to divide by the mass; density-returning APIs are covered through wf clauses.",
@@ -42,7 +43,8 @@ CLAIMED = {
     "C11": ("Lemma layer over the real functions: one-step lemma (conditional transformation + conditioning == joint transformation + "
             "coordinate conditioning == prior x likelihood normalised; predictive density == mass of prior x likelihood) for the full, "
             "identity and NN kinds; two observations with individual (M_i,b_i,Sigma_i) in both orders and as a product; telescoping "
-            "evidence; one Kalman predict/update step against conditioning the joint. Arbitrary N / order / T follow by induction from "
+            "evidence; one Kalman predict/update step against conditioning the joint; the one-step lemma for a prior with K components and N "
+            "observed values at once (layout k*N+n on all three routes). Arbitrary N / order / T follow by induction from "
             "these lemmas and the Lean-checked commutativity of natural-parameter updates. The evidence clauses currently fail exactly "
             "as recorded in known finding KF-set_y-normaliser-uses-Dx.",
             BASE_NOTE + " The dense-joint reference for T>1 Kalman steps is an induction argument, not a mechanised obligation.", "DESIGN §6-C11"),
@@ -92,7 +94,8 @@ CLAIMED = {
     "C18": ("Decides the contract-expressible part: the REAL registered flatten/unflatten lambdas (captured by substituting "
             "jax.tree_util.register_pytree_node) round-trip every factor / measure / density / conditional class in every cache state with "
             "all attributes proved equal; every pytree child is an array or None (the structural precondition of jit/vmap/scan; open known "
-            "finding for ConstantFactor and the NN-controlled conditional); to_dict/from_dict round trips; the numeric replay runs the real "
+            "finding for ConstantFactor and the NN-controlled conditional); the same round trip for a density after an in-place update(); "
+            "__getstate__/__setstate__ (copy / pickle) round trips; the dict-like constructor guards; to_dict/from_dict round trips; the numeric replay runs the real "
             "jax.jit on each class. Numerical agreement of jit/vmap/grad with eager execution / finite differences is JAX semantics and is "
             "NOT claimed.", BASE_NOTE + " jax.tree_util calls the registered functions as registered (assumed).", "DESIGN §6-C18, §11"),
     "C19": ("sample(key, n) is proved to be mu + L z with L = cholesky(Sigma) and z = jax.random.normal(key, (n,R,D)) (pairing of L[a] with "
